@@ -19,7 +19,7 @@ T = {
  'pronoun-none-at-start': ('say it\n', {}),
  'return-first-reached': ('F takes N\nWhile N is greater than 0\nIf N is 9001\ngive back "hit"\n\nKnock N down\n\ngive back "miss"\n\nsay F taking 3\n', {'n1': {'lo': 0, 'hi': 4, 'integral': True}}),
  'return-default-mysterious': ('F takes N\nIf N is 9001\ngive back 1\n\n\nsay F taking 5\n', {'n1': {}}),
- 'recursion': ('F takes N\nIf N is less than 1\ngive back 1\n\ngive back N times F taking N minus 1\n\nsay F taking 9001\n', {'n1': {'lo': -1, 'hi': 3, 'integral': True}}),
+ 'recursion': ('F takes N\nIf N is less than 1\ngive back 1\n\nLet M be N minus 1\ngive back N times F taking M\n\nsay F taking 9001\n', {'n1': {'lo': -1, 'hi': 3, 'integral': True}}),
  'wrong-arity': ('F takes X and Y\ngive back X\n\nsay "before"\nsay F taking 9001\n', {'n1': {}}),
  'wrong-arity-too-many': ('F takes X\ngive back X\n\nsay "before"\nsay F taking 9001, 2\n', {'n1': {}}),
  'call-non-function': ('X is 9001\nsay "before"\nsay X taking 2\n', {'n1': {}}),
